@@ -15,6 +15,9 @@ THOROUGH = [((1, 2, 4), 1.0), ((2, 2, 4), 1.0), ((3, 2, 4), 1.0), ((4, 2, 4), 1.
 
 _BUF = {}
 SCALES = (1.0, 2.0 ** -46, 2.0 ** 20)          # the unit the affinity is expressed in: MMD scales with sqrt(s), W1 with s
+# distances: the transport solver (POT's network simplex) compares reduced costs with an ABSOLUTE epsilon of about 2e-15, so a
+# distance matrix whose entries are themselves around 1e-14 is below its resolution (thorough-tier false alarm, DESIGN 11.4)
+SCALES_W = (1.0, 2.0 ** -30, 2.0 ** 20)
 
 
 def check_case(rep, case, closed=False):
@@ -28,7 +31,7 @@ def check_case(rep, case, closed=False):
         tol = gem.tol_value(res)
         if closed:       # the library clips predictions at epsilon = 1e-12 (1e-6 after the square root of Hellinger)
             tol = 2e-5 if res["name"].startswith("hellinger") else max(tol, 1e-8)
-        scales = SCALES if A0 is not None else (1.0,)
+        scales = (SCALES_W if res["name"].startswith("wasserstein") else SCALES) if A0 is not None else (1.0,)
         for label, g in gem.code_instances(res["name"]):
             for how in ("call", "evaluate"):
                 sc = scales[(sum(map(sum, case["a"])) + case["a"][0][0] * 7 + case["a"][-1][0] * 3 + len(label) + len(res["aff"]) + sum(x)) % len(scales)] if how == "evaluate" else 1.0
